@@ -1,6 +1,11 @@
 //! C02 — BFV/BGV evaluation is an exact ring homomorphism for every operation program (engine E2).
 use crate::e2::*;
 use crate::engine::*;
+use crate::he::*;
+use crate::refmodel::bigu::{inv_mod_u64, mul_mod};
+use crate::refmodel::poly::{padd, pscale, psub};
+use heathcliff::*;
+use serde::{Deserialize, Serialize};
 
 pub fn describe(rep: &Report) {
     rep.set_rule(
@@ -17,8 +22,84 @@ pub fn describe(rep: &Report) {
     rep.assume("refusals of ill-typed operands are judged by C06, budgets by C07 on the same exploration");
 }
 
+#[derive(Serialize, Deserialize, Clone, Debug)]
+pub struct BalCase {
+    pub t: u64,
+    pub f1: u64,
+}
+
+/// All ordered pairs of correction factors (f1, f2) of units modulo t: add and sub of two fresh
+/// ciphertexts whose factors were set to f1 resp. f2 (a ciphertext of message m with factor f
+/// decrypts to m * f^-1).
+fn balance(c: &BalCase, seed: u64) -> CaseOut {
+    let n = 4;
+    let spec = ParamSpec::new(Scheme::BGV, n, chain(n, &[60, 60, 60]), c.t);
+    env_real(seed, h64(&("c02-balance", c.t)));
+    let kit = match Kit::new(&spec) {
+        Ok(k) => k,
+        Err(e) => return CaseOut::skip(&e),
+    };
+    let t = c.t;
+    if e2_gcd(c.f1, t) != 1 {
+        return CaseOut::skip("f1 is not a unit");
+    }
+    let m1: Vec<u64> = vec![1, t - 1, 2 % t, t / 2];
+    let m2: Vec<u64> = vec![t - 2, 3 % t, 0, 1];
+    let a0 = kit.enc.encrypt_new(&kit.plain(&m1));
+    let b0 = kit.enc.encrypt_new(&kit.plain(&m2));
+    let mut steps = 0;
+    let mut cfs = std::collections::BTreeSet::new();
+    for f2 in 1..t {
+        if e2_gcd(f2, t) != 1 {
+            continue;
+        }
+        let (mut a, mut b) = (a0.clone(), b0.clone());
+        a.set_correction_factor(c.f1);
+        b.set_correction_factor(f2);
+        let sa = pscale(&m1, inv_mod_u64(c.f1, t).unwrap(), t);
+        let sb = pscale(&m2, inv_mod_u64(f2, t).unwrap(), t);
+        for sub in [false, true] {
+            let exp = if sub { psub(&sa, &sb, t) } else { padd(&sa, &sb, t) };
+            let r = guard(|| if sub { kit.eval.sub_new(&a, &b) } else { kit.eval.add_new(&a, &b) });
+            let op = if sub { "Sub" } else { "Add" };
+            match r {
+                Err(e) => return CaseOut::fail(format!("balance:{op}:t={t}:{}", panic_class(&e)), format!("f1={} f2={f2} computed", c.f1), e),
+                Ok(r) => {
+                    steps += 1;
+                    let cf = r.correction_factor();
+                    cfs.insert(cf);
+                    if cf == 0 || cf >= t || e2_gcd(cf, t) != 1 {
+                        return CaseOut::fail(format!("balance:{op}:t={t}:factor-not-a-unit"), "result factor is a unit in [1,t)", format!("f1={} f2={f2} -> {cf}", c.f1));
+                    }
+                    if (c.f1 == f2) != (cf == c.f1 && c.f1 == f2) && c.f1 == f2 {
+                        return CaseOut::fail(format!("balance:{op}:t={t}:equal-factors-changed"), format!("factor stays {}", c.f1), format!("{cf}"));
+                    }
+                    match guard(|| kit.dec_coeffs(&r)) {
+                        Ok(d) if d == exp => {}
+                        Ok(d) => return CaseOut::fail(format!("balance:{op}:t={t}:wrong"), format!("f1={} f2={f2}: {:?}", c.f1, exp), format!("{:?} (result factor {cf})", d)),
+                        Err(e) => return CaseOut::fail(format!("balance:{op}:t={t}:decrypt-{}", panic_class(&e)), "decrypts", e),
+                    }
+                    let _ = mul_mod(cf, 1, t);
+                }
+            }
+        }
+    }
+    CaseOut::pass(true, h64(&(cfs.len().min(8), c.f1 == 1)), steps)
+}
+
+fn e2_gcd(a: u64, b: u64) -> u64 {
+    gcd_u64(a, b)
+}
+
 pub fn sections(cfg: &RunCfg) -> Vec<Box<dyn AnySection>> {
-    param_sets(cfg)
+    let seed = cfg.seed;
+    let mut bal: Vec<BalCase> = vec![];
+    for t in if cfg.thorough() { vec![17u64, 97, 257, 16, 18, 1153] } else { vec![17u64, 97, 257, 16] } {
+        for f1 in 1..t {
+            bal.push(BalCase { t, f1 });
+        }
+    }
+    let mut v: Vec<Box<dyn AnySection>> = param_sets(cfg)
         .into_iter()
         .map(|(name, spec, depth, abs)| {
             Box::new(E2Section {
@@ -32,5 +113,12 @@ pub fn sections(cfg: &RunCfg) -> Vec<Box<dyn AnySection>> {
                 abstract_closure: abs,
             }) as Box<dyn AnySection>
         })
-        .collect()
+        .collect();
+    v.push(E1::new(
+        "bgv_factor_pairs",
+        "every ordered pair (f1,f2) of units modulo t in {17, 97, 257, 16} (thorough: + 18, 1153) as correction factors of the operands of add and sub",
+        bal.into_iter(),
+        move |c: &BalCase| balance(c, seed),
+    ));
+    v
 }
